@@ -252,7 +252,6 @@ func runC02(c *eng.Ctx, thorough bool) {
 	c.Clause("R1", "C02.4")
 	internalReq := `^call:logical\.(RevokeRequest|RenewRequest|RenewAuthRequest|RollbackRequest)$`
 	routeTable := map[string]string{
-		"vault.(*Core).doRouting":                       "the authenticated/login dispatch (C02.1, C02.3)",
 		"vault.(*Core).handleRequest":                   "revocation of an ephemeral lease after inline auth: logical.RevokeRequest",
 		"vault.(*Core).walkKvMountSecrets":              "metrics gauge: constant list operation on kv mounts",
 		"vault.(*Core).wrapInCubbyhole":                 "stores the wrapped response under the new wrapping token: constant cubbyhole/ paths",
@@ -267,14 +266,23 @@ func runC02(c *eng.Ctx, thorough bool) {
 	}
 	if m, miss := c.P.StaticCallee("routing.(*Router).Route"); len(miss) == 0 {
 		sites := c.P.FindCalls(m, func(fn *ssa.Function) bool { return !eng.InPkg(fn, "routing") })
+		// the dispatch role is held by the approval gate (whose own callers are tabled above) and by every
+		// forwarding helper that only the gate, transitively, calls: whether the one-line doRouting exists or
+		// is inlined into the gate makes no difference to who can reach the router
+		chain := c02DispatchChain(c, sites)
+		for n := range chain {
+			routeTable[n] = "the authenticated/login dispatch (C02.1, C02.3): the approval gate or a helper only it calls"
+		}
 		c.CallerTable("Router.Route", sites, routeTable, 12)
 		c.Clause("R5", "C02.4")
 		for _, s := range sites {
 			top := eng.FuncName(eng.TopFunc(s.Fn))
 			reqArg := s.Call.Common().Args[2]
-			switch top {
-			case "vault.(*Core).doRouting":
+			if chain[top] {
 				c.Prov(s.Fn, "request routed", s.Call, reqArg, `^param:req$`)
+				continue
+			}
+			switch top {
 			case "vault.(*RollbackManager).attemptRollback":
 				ops := eng.StructLitField(reqArg, "Operation")
 				if len(ops) == 0 {
@@ -409,6 +417,37 @@ func runC02(c *eng.Ctx, thorough bool) {
 
 	runC02Gaps2(c)
 	runC02Gaps3(c, "C02.7")
+}
+
+// c02DispatchChain: doRoutingIfApproved plus the callers of Router.Route that are reached only from
+// functions already in the chain and never used as a function value.
+func c02DispatchChain(c *eng.Ctx, sites []eng.CallSite) map[string]bool {
+	chain := map[string]bool{"vault.(*Core).doRoutingIfApproved": true}
+	for changed := true; changed; {
+		changed = false
+		for _, s := range sites {
+			n := eng.FuncName(eng.TopFunc(s.Fn))
+			if chain[n] || !eng.InPkg(s.Fn, "vault") {
+				continue
+			}
+			m, miss := c.P.StaticCallee(n)
+			if len(miss) > 0 || len(c.P.FuncValueUses(n)) > 0 {
+				continue
+			}
+			callers := c.P.FindCalls(m, nil)
+			ok := len(callers) > 0
+			for _, k := range callers {
+				if !chain[eng.FuncName(eng.TopFunc(k.Fn))] {
+					ok = false
+				}
+			}
+			if ok {
+				chain[n] = true
+				changed = true
+			}
+		}
+	}
+	return chain
 }
 
 func mustStatic(c *eng.Ctx, names ...string) eng.CalleeMatcher {
